@@ -41,13 +41,24 @@ import (
 
 func init() { reg.Register("C06", Run) }
 
+// gidx is a getelementptr index record of Types.tla (the plain forms used in this table).
+type gidx struct {
+	F   string `json:"f"`
+	W   int    `json:"w"`
+	Val int    `json:"val"`
+	Vec int    `json:"vec"`
+	SC  bool   `json:"sc"`
+	IR  bool   `json:"ir"`
+}
+
 type xrec struct {
-	To  *tyutil.Term `json:"to,omitempty"`
-	Ty  *tyutil.Term `json:"ty,omitempty"`
-	Idx []int        `json:"idx,omitempty"`
-	AS  int          `json:"as,omitempty"`
-	Op  string       `json:"op,omitempty"`
-	SP  string       `json:"sp,omitempty"` // call-like kinds: callee type spelled "short" (return type) or "full" (function type)
+	To   *tyutil.Term `json:"to,omitempty"`
+	Ty   *tyutil.Term `json:"ty,omitempty"`
+	Idx  []int        `json:"idx,omitempty"`
+	AS   int          `json:"as,omitempty"`
+	Op   string       `json:"op,omitempty"`
+	GIdx []gidx       `json:"gidx,omitempty"` // getelementptr: index records (operand i+1 is index i)
+	SP   string       `json:"sp,omitempty"`   // call-like kinds: callee type spelled "short" (return type) or "full" (function type)
 }
 
 type rcase struct {
@@ -83,6 +94,9 @@ func (c *rcase) key() string {
 	if c.X.SP != "" {
 		s += " spelled " + c.X.SP
 	}
+	for _, ix := range c.X.GIdx {
+		s += " " + ix.F
+	}
 	return s
 }
 
@@ -98,7 +112,7 @@ var goName = map[string]string{
 	"bitcast": "BitCast", "addrspacecast": "AddrSpaceCast",
 	"icmp": "ICmp", "fcmp": "FCmp", "phi": "Phi", "select": "Select", "freeze": "Freeze", "call": "Call",
 	"va_arg": "VAArg", "landingpad": "LandingPad", "catchpad": "CatchPad", "cleanuppad": "CleanupPad",
-	"invoke": "Invoke", "callbr": "CallBr", "catchswitch": "CatchSwitch",
+	"invoke": "Invoke", "callbr": "CallBr", "catchswitch": "CatchSwitch", "getelementptr": "GetElementPtr",
 }
 
 var casts = map[string]bool{"trunc": true, "zext": true, "sext": true, "fptrunc": true, "fpext": true, "fptoui": true, "fptosi": true,
@@ -120,6 +134,36 @@ func maskText(m *tyutil.Term) string {
 		es = append(es, fmt.Sprintf("i32 %d", i%2))
 	}
 	return "<" + strings.Join(es, ", ") + ">"
+}
+
+// gepIdxText renders the indices of a getelementptr case; SSA indices are the parameters %a<i>.
+func (c *rcase) gepIdxText() string {
+	var b strings.Builder
+	for i, ix := range c.X.GIdx {
+		ty := c.Ops[i+1].LL()
+		switch ix.F {
+		case "ssa":
+			fmt.Fprintf(&b, ", %s %%a%d", ty, i+1)
+		case "int":
+			fmt.Fprintf(&b, ", %s %d", ty, ix.Val)
+		case "zeroinit":
+			fmt.Fprintf(&b, ", %s zeroinitializer", ty)
+		default:
+			panic("getelementptr index form " + ix.F + " has no template in the C06 table")
+		}
+	}
+	return b.String()
+}
+
+// constOperand reports whether operand i is spelled as a constant in the instruction form.
+func (c *rcase) constOperand(i int) bool {
+	switch c.Kind {
+	case "shufflevector":
+		return i == 2 // the mask
+	case "getelementptr":
+		return i >= 1 && c.X.GIdx[i-1].F != "ssa"
+	}
+	return false
 }
 
 func idxText(idx []int) string {
@@ -164,8 +208,8 @@ func (c *rcase) unit(name string) string {
 	}
 	var params []string
 	for i, o := range c.Ops {
-		if c.Kind == "shufflevector" && i == 2 {
-			continue // the mask is a constant
+		if c.constOperand(i) {
+			continue
 		}
 		if c.Kind == "callbr" {
 			continue // operands are the inline assembly and a block address
@@ -198,6 +242,8 @@ func (c *rcase) unit(name string) string {
 			e = fmt.Sprintf("%s (%s to %s)", c.Kind, u(0), c.X.To.LL())
 		case c.Kind == "select":
 			e = fmt.Sprintf("select (%s, %s, %s)", u(0), u(1), u(2))
+		case c.Kind == "getelementptr":
+			e = fmt.Sprintf("getelementptr (%s, %s%s)", c.X.Ty.LL(), u(0), c.gepIdxText())
 		default:
 			panic("no constant-expression template for " + c.Kind)
 		}
@@ -236,6 +282,8 @@ func (c *rcase) unit(name string) string {
 		return simple(s)
 	case c.Kind == "load":
 		return simple(fmt.Sprintf("load %s, %s", c.X.Ty.LL(), op(0)))
+	case c.Kind == "getelementptr":
+		return simple(fmt.Sprintf("getelementptr %s, %s%s", c.X.Ty.LL(), op(0), c.gepIdxText()))
 	case c.Kind == "cmpxchg":
 		return simple(fmt.Sprintf("cmpxchg %s, %s, %s seq_cst seq_cst", op(0), op(1), op(2)))
 	case c.Kind == "atomicrmw":
@@ -334,6 +382,17 @@ func maskConst(b *tyutil.Builder, m *tyutil.Term) constant.Constant {
 	return constant.NewVector(ty.(*types.VectorType), es...)
 }
 
+// gepIdxConst builds a constant getelementptr index of type t.
+func gepIdxConst(t types.Type, ix gidx) constant.Constant {
+	switch ix.F {
+	case "int":
+		return constant.NewInt(t.(*types.IntType), int64(ix.Val))
+	case "zeroinit":
+		return constant.NewZeroInitializer(t)
+	}
+	panic("getelementptr index form " + ix.F + " is not a constant")
+}
+
 func uints(idx []int) []uint64 {
 	var out []uint64
 	for _, i := range idx {
@@ -374,6 +433,12 @@ func constructWith(b *tyutil.Builder, c *rcase) types.Type {
 			return exprCast[c.Kind](a[0], ty(c.X.To)).Type()
 		case c.Kind == "select":
 			return constant.NewSelect(a[0], a[1], a[2]).Type()
+		case c.Kind == "getelementptr":
+			var is []constant.Constant
+			for i, ix := range c.X.GIdx {
+				is = append(is, gepIdxConst(ty(c.Ops[i+1]), ix))
+			}
+			return constant.NewGetElementPtr(ty(c.X.Ty), a[0], is...).Type()
 		}
 		panic("no constant-expression constructor for " + c.Kind)
 	}
@@ -407,6 +472,16 @@ func constructWith(b *tyutil.Builder, c *rcase) types.Type {
 		return inst.Type()
 	case c.Kind == "load":
 		return ir.NewLoad(ty(c.X.Ty), a[0]).Type()
+	case c.Kind == "getelementptr":
+		var is []value.Value
+		for i, ix := range c.X.GIdx {
+			if ix.F == "ssa" {
+				is = append(is, a[i+1])
+			} else {
+				is = append(is, gepIdxConst(ty(c.Ops[i+1]), ix))
+			}
+		}
+		return ir.NewGetElementPtr(ty(c.X.Ty), a[0], is...).Type()
 	case c.Kind == "cmpxchg":
 		return ir.NewCmpXchg(a[0], a[1], a[2], enum.AtomicOrderingSequentiallyConsistent, enum.AtomicOrderingSequentiallyConsistent).Type()
 	case c.Kind == "atomicrmw":
@@ -922,7 +997,7 @@ func Run(tier, replay string) {
 	}
 	process(rep, uni, cases)
 	rep.Exhaustive = true
-	rep.Explanation = "exhaustive over the finite case sets of TypesRes.tla for this tier (every value-producing instruction and terminator kind of LLVM 14, every constant-expression kind the library represents, the operand shapes listed in the module); getelementptr is covered by C07; operand shapes outside Shapes are not covered"
+	rep.Explanation = "exhaustive over the finite case sets of TypesRes.tla for this tier (every value-producing instruction and terminator kind of LLVM 14, every constant-expression kind the library represents, the operand shapes listed in the module); getelementptr appears with plain index forms (its index forms are studied by C07); pointer operands range over address spaces 0, 1 (thorough: 5); operand shapes outside Shapes are not covered"
 	rep.Assumptions = []string{
 		"llvm-as 14 accepting the rendered function (result stored / used at the required type) validates the required type; the renderer (harness/props/c06) spells the case as the specification means it",
 		"TLC's enumeration of TypesRes.tla is complete for the constants of the tier",
